@@ -101,7 +101,9 @@ var c08aRec = verifkit.New("TestVerif_C08_ApiReadsVsLogins",
 	"real server; a group with a plain-password user, a PBKDF2 user, a wildcard user with a (plain or PBKDF2) password and optionally an empty-name user, held in memory by a member; "+
 		"4..14 steps of: administrator's API reads (GET/HEAD of the group, the user list, each user, the wildcard and empty-name users, the token list), API writes that their own "+
 		"precondition refuses (If-Match with a stale tag, If-None-Match: * on something that exists), and password logins through group.AddClient with each credential class "+
-		"(right/wrong password for a named user, for the hashed user, for a name without entry against the wildcard user, a named user's name with the wildcard password); "+
+		"(right/wrong password for a named user, for the hashed user, for a name without entry against the wildcard user, a named user's name with the wildcard password), and "+
+		"acknowledged password changes of the named or the wildcard user (PUT of a plain record or POST for a server-made bcrypt hash; all new passwords of one length, so the file's size does not change) "+
+		"after which the new password is the right one and the replaced one is wrong; "+
 		"oracle: every login is accepted exactly when the presented password is the configured one for that name (named entry first, wildcard only for names without entry), with the "+
 		"same permissions as the same login before anybody read anything, and the file is byte-identical at the end; non-trivial = a login after at least one API request; distinct by plan")
 
@@ -153,19 +155,31 @@ func TestVerif_C08_ApiReadsVsLogins(t *testing.T) {
 			label, user, pw string
 			right           bool
 		}
-		creds := []cred{
-			{"named/right", "named", "named-pw", true},
-			{"named/wrong", "named", "named-pwx", false},
-			{"named/wildcard-password", "named", "wild-pw", false},
-			{"hashed/right", "hashed", "hashed-pw", true},
-			{"hashed/wrong", "hashed", "hashed-pW", false},
-			{"no-entry/wildcard-right", "somebody", "wild-pw", true},
-			{"no-entry/wildcard-wrong", "somebody", "wild-pwx", false},
-			{"no-entry/empty-password", "somebody", "", false},
+		// the passwords in force (an acknowledged API password change replaces one at once)
+		curNamed, prevNamed, curWild, prevWild := "named-pw", "", "wild-pw", ""
+		mkCreds := func() []cred {
+			cs := []cred{
+				{"named/right", "named", curNamed, true},
+				{"named/wrong", "named", curNamed + "x", false},
+				{"named/wildcard-password", "named", curWild, false},
+				{"hashed/right", "hashed", "hashed-pw", true},
+				{"hashed/wrong", "hashed", "hashed-pW", false},
+				{"no-entry/wildcard-right", "somebody", curWild, true},
+				{"no-entry/wildcard-wrong", "somebody", curWild + "x", false},
+				{"no-entry/empty-password", "somebody", "", false},
+			}
+			if prevNamed != "" {
+				cs = append(cs, cred{"named/replaced-password", "named", prevNamed, false})
+			}
+			if prevWild != "" {
+				cs = append(cs, cred{"no-entry/replaced-wildcard-password", "somebody", prevWild, false})
+			}
+			if withEmpty {
+				cs = append(cs, cred{"empty-name/right", "", "empty-pw", true}, cred{"empty-name/wildcard-password", "", curWild, false})
+			}
+			return cs
 		}
-		if withEmpty {
-			creds = append(creds, cred{"empty-name/right", "", "empty-pw", true}, cred{"empty-name/wildcard-password", "", "wild-pw", false})
-		}
+		creds := mkCreds()
 		nlogin := 0
 		login := func(c cred) (bool, string) {
 			nlogin++
@@ -195,9 +209,42 @@ func TestVerif_C08_ApiReadsVsLogins(t *testing.T) {
 		paths := []string{p, p + "/.users/", p + "/.users/named", p + "/.users/hashed", p + "/.users/nosuch", p + "/.wildcard-user", p + "/.empty-user", p + "/.tokens/", p + "/.keys", p + "/.fallback-users"}
 		var plan []string
 		apiSeen, loginsAfter := 0, 0
+		wrote := false
 		n := rapid.IntRange(4, 14).Draw(t, "steps")
 		for i := 0; i < n; i++ {
-			switch rapid.SampledFrom([]string{"read", "read", "refused-write", "login", "login"}).Draw(t, "op") {
+			switch rapid.SampledFrom([]string{"read", "read", "refused-write", "login", "login", "login", "password-change"}).Draw(t, "op") {
+			case "password-change":
+				// an acknowledged change is in force for the very next login, the replaced password is not
+				who := rapid.SampledFrom([]string{"named", "wildcard"}).Draw(t, "whose")
+				npw := fmt.Sprintf("chg-pw%d", i%10) // all of one length: the file's size does not change
+				path := p + "/.users/named/.password"
+				if who == "wildcard" {
+					path = p + "/.wildcard-user/.password"
+				}
+				var r *rawResp
+				var err error
+				if rapid.Bool().Draw(t, "serverHashes") {
+					r, err = rig.raw("POST", path, map[string]string{"Authorization": auth, "Content-Type": "text/plain"}, []byte(npw))
+				} else {
+					r, err = rig.raw("PUT", path, map[string]string{"Authorization": auth, "Content-Type": "application/json"}, []byte(fmt.Sprintf(`{"type":"plain","key":%q}`, npw)))
+				}
+				if err != nil {
+					t.Fatalf("C12: password change: no HTTP response: %v", err)
+				}
+				plan = append(plan, fmt.Sprintf("password of %s := %s -> %d", who, npw, r.Status))
+				if r.Status < 200 || r.Status >= 300 {
+					t.Fatalf("C17: the administrator's password change for %s was refused: %d %s", who, r.Status, trunc(r.Body))
+				}
+				wrote = true
+				apiSeen++
+				if who == "named" {
+					if npw != curNamed {
+						prevNamed, curNamed = curNamed, npw
+					}
+				} else if npw != curWild {
+					prevWild, curWild = curWild, npw
+				}
+				creds = mkCreds()
 			case "read":
 				path := rapid.SampledFrom(paths).Draw(t, "path")
 				m := rapid.SampledFrom([]string{"GET", "GET", "HEAD"}).Draw(t, "method")
@@ -234,12 +281,22 @@ func TestVerif_C08_ApiReadsVsLogins(t *testing.T) {
 				apiSeen++
 			case "login":
 				c := creds[rapid.IntRange(0, len(creds)-1).Draw(t, "cred")]
+				if wrote && rapid.Bool().Draw(t, "aimAtChanged") {
+					// the credentials a change has just touched
+					var touched []cred
+					for _, x := range creds {
+						if strings.Contains(x.label, "replaced") || x.pw == curNamed && x.user == "named" || x.pw == curWild && x.user == "somebody" {
+							touched = append(touched, x)
+						}
+					}
+					c = touched[rapid.IntRange(0, len(touched)-1).Draw(t, "touched")]
+				}
 				ok, as := login(c)
 				plan = append(plan, fmt.Sprintf("login %s=%v", c.label, ok))
 				if ok != c.right {
 					t.Fatalf("C08: login %s (user %q, password %q) accepted=%v, the definition says %v; the file has not changed, only these requests were made: %v", c.label, c.user, c.pw, ok, c.right, plan)
 				}
-				if ok && as != baseline[c.label] {
+				if b, have := baseline[c.label]; ok && have && as != b {
 					t.Fatalf("C08: login %s is now admitted as %q, before any API request it was %q; requests: %v", c.label, as, baseline[c.label], plan)
 				}
 				if apiSeen > 0 {
@@ -248,12 +305,13 @@ func TestVerif_C08_ApiReadsVsLogins(t *testing.T) {
 			}
 		}
 		after, _ := os.ReadFile(fn)
-		if string(after) != string(before) {
+		if !wrote && string(after) != string(before) {
 			t.Fatalf("C17/C18: reads and refused writes changed the group file; requests: %v\n before: %s\n after:  %s", plan, before, after)
 		}
 		c08aRec.Case(loginsAfter > 0, strings.Join(plan, ";"), map[string]any{"plan": plan, "wildcard_hashed": wildHashed, "empty_name_user": withEmpty})
 		c08aRec.ClassN("logins_after_api_requests", loginsAfter)
 		c08aRec.ClassN("api_requests", apiSeen)
+		c08aRec.ClassIf(wrote, "password_changed_through_the_api")
 		c08aRec.ClassIf(slices.ContainsFunc(plan, func(s string) bool { return strings.Contains(s, ".wildcard-user=200") }), "wildcard_user_read")
 	})
 }
